@@ -97,3 +97,27 @@ META["C19"] = {
     "level_note": "1-of-1 groups loaded through the daemon's migration path stand for DKG-produced chains; lenient where the statement is silent (known id + unknown hash)",
     "technique": "runtime monitoring: request matrix with attribution oracle over loopback gRPC/HTTP; Go race detector anchored on routing-table state",
 }
+META["C06"] = {
+    "level": "exploration",
+    "level_text": "for every completed DKG/reshare of the run (schemes x n in 1..7 x thresholds x reshare shapes x shuffled participant lists x bus schedules with delay, reordering, duplication and one slow link-phase) all nodes' finished records agreed field by field, every share lay on the public polynomial at its index and every (sampled) t-subset signed verifiably",
+    "level_note": "real kyber DKG over an in-memory bus; field comparison is the harness's own (Group.Equal ignores some fields)",
+    "technique": "runtime monitoring: real DKG processes on an in-memory bus with a fault schedule; algebraic and field-agreement oracles over the nodes' real dkg.db records",
+}
+META["C07"] = {
+    "level": "exploration",
+    "level_text": "across every explored reshare (handler-level shapes x transition timings x outages; daemon-level same-set / add+remove / failed-then-successful) the chain identity served before and after was byte-identical, stored chains stayed gap-free, fork-free and verifiable under the original key, the new group kept producing within a step bound, and previous-group partials were not accepted by switched nodes",
+    "level_note": "handler-level layer re-shares the secret itself (no DKG); daemon-level layer runs real DKGs over loopback",
+    "technique": "runtime monitoring: store/wire taps across forced transitions, identity comparison of served chain info, hooked cache monitor for previous-group partials",
+}
+META["C08"] = {
+    "level": "exploration",
+    "level_text": "after every step of every generated command/packet history (valid and each invalid class, all roles, up to 3 epochs, aborts, timeouts, failed executions) the node's real dkg.db moved along a legal edge, its epoch did not decrease, the finished record changed only on completion of a higher epoch, rejected inputs left it byte-identical, and a fresh proposal was accepted at the end",
+    "level_note": "the legal-edge table is the harness's own statement of the protocol; quiescence between steps is a pacing heuristic no verdict depends on",
+    "technique": "runtime monitoring: generated histories against real DKG processes with a reference transition relation and record-immutability invariants checked on the real database",
+}
+META["C13"] = {
+    "level": "fault_enumeration",
+    "level_text": "an image of the victim's whole folder at every persistence hook firing (key/group/share saves, dkg.db saves, every chain Put) of scripted runs (first DKG, rounds, reshare, leave), plus synthesized torn files and real SIGKILLs inside bolt commits (strace injection, 240 runs); each image is checked offline and a subset restarted in a child process that must rejoin the running network",
+    "level_note": "process death (page cache kept), not power loss; the leave path is only reachable by injecting the completion the code expects",
+    "technique": "runtime fault injection: crash-point enumeration through hooks with disk images, offline consistency oracle, child-process restarts, strace SIGKILL injection",
+}
